@@ -471,12 +471,19 @@ def buildMapping (m : CMol) (q : CQuery) (path : List Nat) (depth n : Nat) : Opt
 /-- one expansion: load the next query atom, pick the molecule atom it hangs on (`if q_atom.back != depth: n = path[q_atom.back]`),
     scan that atom's bond row -/
 def expandC (m : CMol) (q : CQuery) (scope : List Bool) (depth n : Nat) (path : List Nat) (matched : List Bool) :
-    Option (List Nat) := do
-  let qa ← q.atoms[depth + 1]?
-  let n' ← if qa.back != depth then path[qa.back]? else some n
-  let nAtom ← m.atoms[n']?
-  let row ← slice? m.bonds nAtom.from_ nAtom.to_
-  candidatesC m q scope qa n' matched path row
+    Option (List Nat) :=
+  match q.atoms[depth + 1]? with
+  | none => none
+  | some qa =>
+    match (if qa.back != depth then path[qa.back]? else some n) with
+    | none => none
+    | some n' =>
+      match m.atoms[n']? with
+      | none => none
+      | some nAtom =>
+        match slice? m.bonds nAtom.from_ nAtom.to_ with
+        | none => none
+        | some row => candidatesC m q scope qa n' matched path row
 
 /-- the `while stack:` loop -/
 def runLoopC (m : CMol) (q : CQuery) (scope : List Bool) (qdec : Nat) :
